@@ -110,6 +110,19 @@ static QAC_CB(cb_def) {
     show_cb('D', data);
     return NULL;
 }
+/* a default handler that refuses like the registered callback (`ac` with defcb = 2; the Lean model has
+ * no refusing default handler: such operations are run against the oracle only) */
+static QAC_CB(cb_def_refusing) {
+    (void) userdata;
+    show_cb('D', data);
+    if (data->argc >= 2) {
+        if (data->otype != QAC_OTYPE_SECTIONCLOSE && !strcmp(data->argv[1], "!fail"))
+            return strdup("default handler refused");
+        if (data->otype == QAC_OTYPE_SECTIONCLOSE && !strcmp(data->argv[1], "!failclose"))
+            return strdup("default handler refused close");
+    }
+    return NULL;
+}
 
 /* ---------------------------------------------------------------- helpers */
 static char tmp_path[4096];
@@ -215,7 +228,7 @@ static void do_ac(int nw, char **w) {
     cbout = open_memstream(&cbtext, &cblen); ncb = 0;
     qaconf_t *conf = qaconf();
     int added = conf->addoptions(conf, opts);
-    if (defcb) conf->setdefhandler(conf, cb_def);
+    if (defcb) conf->setdefhandler(conf, defcb == 2 ? cb_def_refusing : cb_def);
     alarm(WATCHDOG_S);
     errno = ENOMEM;   /* poison, see do_ini */
     int ret = conf->parse(conf, tmp_path, (uint8_t) flags);
